@@ -30,6 +30,16 @@ func TestGocvBoundedC20(t *testing.T) {
 		}
 		fails++
 	}
+	// the fields written with entry i: the count varies so that a ring cell is reused by entries with
+	// fewer (and with more) fields than its previous occupant
+	fieldsFor := func(i int) []zapcore.Field {
+		all := []zapcore.Field{zap.Int("seq", i), zap.String("blk", fmt.Sprintf("b%d", i))}
+		k := i % 3
+		if i%2 == 0 {
+			k = 2 - (i/BufferSize)%3
+		}
+		return all[:k]
+	}
 	check := func(name string, ml *MemLogger, n int) {
 		logs := ml.GetLogs()
 		want := n
@@ -47,6 +57,15 @@ func TestGocvBoundedC20(t *testing.T) {
 			}
 			if wantMsg := fmt.Sprintf("m%d", n-1-i); e.Message != wantMsg {
 				fail("%s: after %d writes entry %d is %q, want %q (newest first)", name, n, i, e.Message, wantMsg)
+				return
+			}
+			want := fieldsFor(n - 1 - i)
+			same := len(e.Context) == len(want) && e.Level == zapcore.InfoLevel && e.LoggerName == "lg"
+			for j := 0; same && j < len(want); j++ {
+				same = e.Context[j].Equals(want[j])
+			}
+			if !same {
+				fail("%s: after %d writes entry %d (%q) is returned with level %v, logger %q and fields %v; it was written with level info, logger \"lg\" and fields %v", name, n, i, e.Message, e.Level, e.LoggerName, e.Context, want)
 				return
 			}
 		}
@@ -73,7 +92,7 @@ func TestGocvBoundedC20(t *testing.T) {
 					name = "core derived before the first write"
 				}
 				for i := 0; i < n; i++ {
-					if err := core.Write(zapcore.Entry{Message: fmt.Sprintf("m%d", i)}, nil); err != nil {
+					if err := core.Write(zapcore.Entry{Message: fmt.Sprintf("m%d", i), Level: zapcore.InfoLevel, LoggerName: "lg"}, fieldsFor(i)); err != nil {
 						fail("%s: write %d failed: %v", name, i, err)
 					}
 				}
@@ -135,7 +154,7 @@ func TestGocvBoundedC20(t *testing.T) {
 			fail("concurrent %dx%d: %d distinct entries retained, want %d", shape[0], shape[1], len(seen), total)
 		}
 	}
-	fmt.Printf("GOCV-BOUNDED cases=%d failures=%d scope=\"root core: n writes; core derived before the first write: n <= BufferSize writes; for n in %v; concurrent writers 4x100, 8x200; BufferSize=%d\"\n", cases, fails, sizes, BufferSize)
+	fmt.Printf("GOCV-BOUNDED cases=%d failures=%d scope=\"root core: n writes, each with 0..2 fields (a cell is reused by entries with fewer and with more fields than its previous occupant); message, level, logger name and fields of every returned entry compared with what was written; core derived before the first write: n <= BufferSize writes; for n in %v; concurrent writers 4x100, 8x200; BufferSize=%d\"\n", cases, fails, sizes, BufferSize)
 	if fails > 0 {
 		t.Fail()
 	}
